@@ -445,6 +445,38 @@ pub fn universe(tier: Tier) -> Vec<MsgFamily> {
             }),
         });
     }
+    // F1e: every MSIN byte x the kind of the FIRST argument / the first payload bytes (a parser that
+    // guesses the payload kind from content must never be fooled by a legitimate first field)
+    {
+        let kinds = all_kinds();
+        let nk = kinds.len();
+        let sp = Space::new(&[256, nk + 3, 2]);
+        let s2 = sp.clone();
+        fams.push(MsgFamily {
+            name: "u.msin_first_field",
+            about: format!("all 256 MSIN bytes x first field: for verbose messages one plain argument of each of the {} kinds (network trace: a slice starting with each of 3 type-info-like byte patterns), for non-verbose / control messages a message id / service id + data that look like type-info words (0x10, 0x21, 0x23, 0x43, 0x200, 0x400) x byte order", nk),
+            size: sp.size(),
+            gen: Box::new(move |i| {
+                let c = s2.coords(i);
+                let msin = c[0] as u8;
+                let (verbose, mstp, mtin) = (msin & 1 != 0, (msin >> 1) & 7, msin >> 4);
+                let big = c[2] == 1;
+                let words: [u32; 6] = [0x10, 0x21, 0x23, 0x43, 0x200, 0x400];
+                let w = words[c[1] % 6];
+                let wb = if big { w.to_be_bytes() } else { w.to_le_bytes() };
+                let p = match (verbose, mstp) {
+                    (true, MSTP_NW_TRACE) => RefPayload::NetworkTrace(vec![wb.to_vec(), vec![c[1] as u8; c[1] % 4]]),
+                    (true, _) => {
+                        let k = kinds[c[1] % nk];
+                        RefPayload::Verbose(vec![mk_arg(k, None, 0, false, default_value(k), None), mk_arg(RefKind::Uint(1), None, 0, false, RefValue::U(c[1] as u128, 1), None)])
+                    }
+                    (false, MSTP_CONTROL) => RefPayload::Control(wb[0], vec![wb[1], wb[2], wb[3], 1, 2]),
+                    (false, _) => RefPayload::NonVerbose(w, wb.iter().chain(wb.iter()).cloned().collect()),
+                };
+                msg_with(if big { 0x02 } else { 0 }, 1, Some(ext(mstp, mtin, "AP", "CT")), p, None)
+            }),
+        });
+    }
     // F2: single arguments: A_full x byte order x storage
     {
         let args = arg_full(tier);
@@ -772,23 +804,53 @@ pub fn universe(tier: Tier) -> Vec<MsgFamily> {
             }),
         });
     }
-    // F10c: one multi-byte character at EVERY byte offset of a long ASCII string
+    // F10c: one multi-byte character at EVERY byte offset of a text field: string values in both
+    // codings, variable names, units; plus the offsets around every multiple of 1 KiB up to the
+    // maximum (block-wise validators, fixed-size previews)
     {
-        let n: usize = 8300;
         let chars = ['é', '€', '😀'];
-        let sp = Space::new(&[n + 1, chars.len()]);
+        // (field, n): field 0 = UTF8-coded string, 1 = ASCII-coded string, 2 = name, 3 = unit
+        let dense: Vec<(usize, usize)> = vec![(0, 8300), (1, tier.pick(1300, 8300)), (2, tier.pick(700, 4200)), (3, tier.pick(700, 4200))];
+        let mut cases: Vec<(usize, usize, usize)> = vec![]; // (field, total ascii length, offset)
+        for (f, n) in &dense {
+            for o in 0..=*n {
+                cases.push((*f, *n, o));
+            }
+        }
+        // long strings: offsets -4..=4 around every multiple of 1024
+        for f in [0usize, 1] {
+            let n = 65_400usize;
+            let mut k = 1024usize;
+            while k < n {
+                for d in 0..9usize {
+                    cases.push((f, n, k + d - 4));
+                }
+                k += 1024;
+            }
+        }
+        let nc = cases.len();
+        let sp = Space::new(&[nc, chars.len()]);
         let s2 = sp.clone();
         fams.push(MsgFamily {
             name: "u.char_position_sweep",
-            about: format!("a string of {} ASCII characters with one 2-, 3- or 4-byte character inserted at EVERY byte offset 0..={} (every alignment against 4 KiB / 8 KiB blocks)", n, n),
+            about: format!("one 2-, 3- or 4-byte character inserted at EVERY byte offset of an ASCII text: UTF8-coded string of 8300 bytes, ASCII-coded string of {} bytes, variable name and unit of {} bytes each; and at the 9 offsets around every multiple of 1024 of 65400-byte strings in both codings ({} (field, offset) cases x 3 characters)", dense[1].1, dense[2].1, nc),
             size: sp.size(),
             gen: Box::new(move |i| {
                 let c = s2.coords(i);
+                let (f, n, o) = cases[c[0]];
                 let mut t = String::with_capacity(n + 4);
-                t.push_str(&"a".repeat(c[0]));
+                t.push_str(&"a".repeat(o));
                 t.push(chars[c[1]]);
-                t.push_str(&"b".repeat(n - c[0]));
-                msg_with(if c[0] % 2 == 1 { 0x02 } else { 0 }, 1, Some(ext(MSTP_LOG, 4, "APP", "CTX")), RefPayload::Verbose(vec![mk_arg(RefKind::Str, None, 1, false, RefValue::Str(t), None)]), None)
+                t.push_str(&"b".repeat(n - o));
+                let fl = if o % 2 == 1 { 0x02 } else { 0 };
+                let e = Some(ext(MSTP_LOG, 4, "APP", "CTX"));
+                let arg = match f {
+                    0 => mk_arg(RefKind::Str, None, 1, false, RefValue::Str(t), None),
+                    1 => mk_arg(RefKind::Str, None, 0, false, RefValue::Str(t), None),
+                    2 => mk_arg(RefKind::Uint(4), Some((&t, "u")), 0, false, RefValue::U(0x0102_0304, 4), None),
+                    _ => mk_arg(RefKind::Sint(2), Some(("n", &t)), 0, false, RefValue::I(-2, 2), None),
+                };
+                msg_with(fl, 1, e, RefPayload::Verbose(vec![arg]), None)
             }),
         });
     }
@@ -1066,7 +1128,7 @@ pub fn value_sweep_args(tier: Tier) -> Vec<RefArg> {
 }
 
 pub fn embedded_pattern_positions() -> usize {
-    22
+    26
 }
 /// One message with the storage pattern at content position `pos` (see family u.embedded_pattern).
 pub fn embedded_pattern_message(pos: usize, big: bool, st: Option<RefStorage>, pat: &[u8], pat_s: &str) -> RefMsg {
@@ -1121,9 +1183,24 @@ pub fn embedded_pattern_message(pos: usize, big: bool, st: Option<RefStorage>, p
         19 => msg_with(fl, 1, None, RefPayload::NonVerbose(3, vec![1]), st.map(|_| storage(5, 0x0154_4C44, "STOR"))),
         20 => msg_with(fl, 1, e_log(), payload_for(true, Some(MSTP_LOG), 0), st.map(|_| storage(5, 6, pat_s))),
         // a whole stored message carried as the payload of another one
-        _ => {
+        21 => {
             let inner = encode(&msg_with(0, 1, None, RefPayload::NonVerbose(0x0102_0304, vec![1, 2, 3]), Some(storage(1, 2, "INNR")))).0;
             msg_with(fl, 1, None, RefPayload::NonVerbose(8, inner), st)
+        }
+        // ... followed by more payload bytes / preceded by some / inside a raw argument / a control payload
+        _ => {
+            let inner = encode(&msg_with(0x04, 1, Some(ext(MSTP_LOG, 5, "IN", "NR")), payload_for(true, Some(MSTP_LOG), 0), Some(storage(1, 2, "INNR")))).0;
+            let mut data = vec![];
+            if pos == 23 {
+                data.extend_from_slice(b"pre");
+            }
+            data.extend_from_slice(&inner);
+            data.extend_from_slice(b"trailing bytes");
+            match pos {
+                22 | 23 => msg_with(fl, 1, Some(ext(MSTP_LOG, 6, "GW", "FWD")), RefPayload::NonVerbose(8, data), st),
+                24 => msg_with(fl, 1, Some(ext(MSTP_LOG, 5, "GW", "FWD")), RefPayload::Verbose(vec![mk_arg(RefKind::Raw, None, 0, false, RefValue::Raw(data), None), mk_arg(RefKind::Uint(1), None, 0, false, RefValue::U(7, 1), None)]), st),
+                _ => msg_with(fl, 1, Some(ext(MSTP_CONTROL, 1, "GW", "FWD")), RefPayload::Control(0x11, data), st),
+            }
         }
     }
 }
